@@ -60,3 +60,37 @@ Print Assumptions c16_outage_only_without_control_connection.
 Theorem c16_readiness : forall outage timeout, ready outage timeout = false <-> (timeout <= outage)%Z.
 Proof. exact readiness_spec. Qed.
 Print Assumptions c16_readiness.
+
+(** ---- the event loop of Cluster.stayConnected (Model/Refresh.v): pending refresh, its timer, the
+    control connection ---- *)
+From CqlProxy Require Import Model.Refresh Proofs.RefreshProofs.
+
+(** Whenever the table the proxy routes by differs from the backend's peers table, the
+    announcement is still on its way, or a refresh is scheduled AND its timer is running or has
+    fired, or the control connection is down (the reconnect re-reads the tables) -- after every
+    history of backend changes, topology/status events, timer expiries, losses of the control
+    connection and successful or failed reconnects. *)
+Theorem c16_stale_routing_is_being_caught_up :
+  forall t es, stale (Refresh.run t es) = true -> catching_up (Refresh.run t es) = true.
+Proof. exact stale_routing_is_being_caught_up. Qed.
+Print Assumptions c16_stale_routing_is_being_caught_up.
+
+Theorem c16_pending_refresh_has_its_timer :
+  forall t es, pending (Refresh.run t es) = true -> rtimer (Refresh.run t es) <> TIdle.
+Proof. exact pending_refresh_has_its_timer. Qed.
+Print Assumptions c16_pending_refresh_has_its_timer.
+
+(** ... and the proxy's own next steps (the announcement arriving, the refresh window expiring,
+    the loop taking the timer; or the reconnect) leave it routing by exactly the backend's table. *)
+Theorem c16_proxy_catches_up_by_its_own_steps :
+  forall t es, hosts (fold_left Refresh.step own_steps (Refresh.run t es)) = backend (fold_left Refresh.step own_steps (Refresh.run t es)).
+Proof. exact proxy_catches_up_by_its_own_steps. Qed.
+Print Assumptions c16_proxy_catches_up_by_its_own_steps.
+
+(** A loop that stops the refresh timer when the control connection is lost gets stuck: a node
+    joins, the connection is lost inside the window, the proxy reconnects, a second node joins. *)
+Theorem c16_stopping_the_timer_on_loss_gets_stuck :
+  let s := run_stopping [1; 2]%N stuck_history in
+  stale s = true /\ catching_up s = false /\ stale (fold_left (step_gen true) own_steps s) = true.
+Proof. exact stopping_the_timer_on_loss_gets_stuck. Qed.
+Print Assumptions c16_stopping_the_timer_on_loss_gets_stuck.
